@@ -8,7 +8,8 @@
 (*          dead | (others: no state change);   by = "transport" | "closer" | "caller" | "other"             *)
 (*   active Transport.active when the event was logged;  how = returned | raised | timeout                   *)
 (*   blocked  callers still inside their call at the deadline                                                 *)
-(* and the trace record says which end of the session the calls were made on (role = "server" | "client").   *)
+(* and the trace record says which end of the session the calls were made on (role = "server" | "client") and  *)
+(* what was done on the callers' channels before (prior = "none" | "shutdown_read" | "shutdown_both" | ...). *)
 (* The step for event l is always taken on the design spec's variables (tt and cl move along TTOrder /       *)
 (* CLOrder, loss as in Lose, phases from PhaseNow) and sets bad' to the clauses that fail there.             *)
 (*   P_inactive  the deadline passed and the transport is still active after the loss                        *)
@@ -46,7 +47,7 @@ Clauses ==
          (IF E.how \in Results(Family(wapi[E.w])) THEN {} ELSE {<<"C_result", wapi[E.w], E.how>>})
     [] E.ev = "Deadline" ->
          (IF loss # "none" /\ E.active THEN {<<"P_inactive", loss>>} ELSE {})
-         \cup (IF ~E.active THEN {<<"P_returns", wapi[w], wphase[w], Batch[tid].role>> : w \in {x \in W : x \in DOMAIN wpc /\ Started(x)}}
+         \cup (IF ~E.active THEN {<<"P_returns", wapi[w], wphase[w], Batch[tid].role, Batch[tid].prior>> : w \in {x \in W : x \in DOMAIN wpc /\ Started(x)}}
                ELSE {})
          \cup {<<"C_phase", wapi[w], wphase[w]>> : w \in {x \in W : wpc[x] # "idle" /\ Batch[tid].labels[x] \notin {"any", wphase[x]}}}
          \cup (IF ~E.active /\ ~ShutdownComplete /\ loss # "none" THEN {<<"C_shutdown_unfinished", tt>>} ELSE {})
